@@ -255,7 +255,7 @@ func inductionCoversAll(phi *ssa.Phi, index ssa.Value, isLen func(ssa.Value) boo
 }
 
 func runC06(c *Ctx) {
-	c.rule("C06-R8", "PAIR: every Lock/RLock in pkg/server (auth failure trackers) is released on every path to a return")
+	c.rule("C06-R8", "PAIR: every Lock/RLock in pkg/server (auth failure trackers) is released on every path to a return; REACQ: no method calls, while it holds its receiver's mutex, a method of the same receiver that acquires that mutex again (sync mutexes are not re-entrant; a second RLock blocks once a writer waits)")
 	c.Sites["C06-R8#acquire-sites"] = lockReleaseAudit(c, "C06-R8", []string{serverPkg})
 	c.floor("C06-R8", 6)
 	// ---- R9 middleware chains are not built in shared storage
